@@ -45,6 +45,13 @@ def generate(rng, tier, prop):
                        "line": rng.choice(LINES), "raw": rng.choice(RAWS)}
     maxops = 30 if tier == "quick" else rng.choice([30, 40, 60])
     n = rng.randint(1, maxops)
+    keys = KEYS
+    if subject == "entry" and rng.random() < (0.01 if tier == "quick" else 0.05):
+        # size swarm: many fields, long histories
+        keys = KEYS + ["f%d" % i for i in range(rng.choice([20, 80, 300]))]
+        n = rng.randint(100, 300 if tier == "quick" else 1500)
+        if "init" in cfg:
+            cfg["init"]["fields"] = [[k, rng.choice(VALS), rng.choice(LINES)] for k in rng.sample(keys, min(len(keys), rng.choice([10, 60, 200])))]
     ops = []
     p_fork = rng.choice([0.05, 0.12, 0.25])
     p_perturb = rng.choice([0.1, 0.25]) if subject == "entry" else 0.6
@@ -59,12 +66,12 @@ def generate(rng, tier, prop):
             continue
         if r < p_fork + (max(p_perturb, 0.4) if has_fork else p_perturb):
             attr = rng.choice(["type", "key", "raw", "line", "meta", "fkey", "fval", "fline", "value", "metadel"])
-            ops.append({"op": "perturb", "h": h, "attr": attr, "i": rng.randrange(6), "j": rng.randrange(8)})
+            ops.append({"op": "perturb", "h": h, "attr": attr, "i": rng.randrange(6 if keys is KEYS else 400), "j": rng.randrange(8)})
             continue
         if subject != "entry":
             ops.append({"op": "cross", "h": h})
             continue
-        k = rng.choice(KEYS)
+        k = rng.choice(keys)
         kind = rng.choice(["set_field", "set_field", "setitem", "setitem", "pop", "pop_default", "delitem",
                            "get", "get_default", "contains", "getitem", "reserved", "items", "views"])
         op = {"op": kind, "h": h, "k": k}
@@ -391,7 +398,13 @@ def execute(run, props):
                     res.nontrivial = True
                 elif kind in ("pop", "pop_default"):
                     dflt = ("sentinel",)
-                    r = obj.pop(k) if kind == "pop" else obj.pop(k, dflt)
+                    try:
+                        r = obj.pop(k) if kind == "pop" else obj.pop(k, dflt)
+                    except KeyError:
+                        if present or kind != "pop":
+                            raise
+                        r = None             # dict.pop(absent) without default raises; Entry.pop documents default=None: both accepted
+                        outcome = "KeyError"
                     want = m.d.pop(k) if present else (None if kind == "pop" else dflt)
                     # dict.pop(k) without default raises KeyError; Entry.pop documents default=None
                     if r is not want:
